@@ -297,8 +297,9 @@ def deliver (s : Irc) (m : Msg) : Irc × Delivery :=
       else ({ s1 with echoed := .int n :: s.echoed, nextOid := n + 1 }, .out out)
     else (s1, .out out)
 
-/-- the body of `takeMsg`; `again` stands for the recursive call `return self.takeMsg()` made
-after an outFilter returned `None` -/
+/-- one round of `takeMsg` (`_takeMsg`); `again` stands for the next round of the loop, made after an
+outFilter returned `None` (a recursive call `return self.takeMsg()` before the repair: a long run of
+dropped messages hit Python's recursion limit and a message no filter dropped was lost) -/
 def takeBody (again : Irc → Irc × List Ev) (s : Irc) : Irc × List Ev :=
   match s.fast with
   | m :: rest =>
@@ -331,8 +332,9 @@ def takeBody (again : Irc → Irc × List Ev) (s : Irc) : Irc × List Ev :=
       let r2 := noMsg r.1
       (r2.1, r.2 ++ r2.2)
 
-/-- `takeMsg` with the recursion bounded by the first argument (each recursive call happens
-after one message was removed from a queue; `takeMsg` starts with enough, see
+/-- the loop of `takeMsg`, the first argument being the number of rounds left
+(`for _ in range(len(self.fastqueue) + len(self.queue) + 1)`; every further round happens after one
+message was removed from a queue, so the bound is never reached with filters that queue nothing:
 `takeAux_fuel` in the lemmas) -/
 def takeAux : Nat → Irc → Irc × List Ev
   | 0, s => (s, [])
